@@ -117,7 +117,7 @@ for cfg in CONFIGS + QCONFIGS:
         total = BASE[cfg][2]
         for lo in range(0, total + 1, SH):
             hi = min(lo + SH, total + 1)
-            quick = len(cfg) == 3 and ((api == 'operate' and (lo // SH) % 2 == (0 if cfg[0] == 0 else 1)) or (api == 'process' and cfg[:2] == (1, 0) and lo in (24, 72)))
+            quick = len(cfg) == 3 and ((api == 'operate' and ((lo // SH) % 4 == 0 if cfg[0] == 0 else (lo // SH) % 2 == 1)) or (api == 'process' and cfg[:2] == (1, 0) and lo == 24))
             define(globals(), 'C13', 'reply_cut_%sdepth%d_multiple%d_%s_%03d' % ('short_' if len(cfg) == 3 else '', cfg[0], cfg[1], api, lo), ['cut'],
                    "return do_reply_cut(%r, cut, %r, %d, %d)" % (cfg, api, lo, hi), ['0 <= cut < %d' % (hi - lo)],
                    tier='quick' if quick else 'thorough', timeout=3000, path_timeout=600, drives=DRIVES, stubs=STUBS,
@@ -227,10 +227,10 @@ def do_proxy_handshake(cut):
     return ok and [list(v) for v in second] == [[1, 2, 3, 4], [1, 2, 3, 4, 5, 6]] and via.gateway is not None
 
 
-define(globals(), 'C13', 'proxy_handshake_fault_discards_quick', ['cut'], "return do_proxy_handshake(28 + 17 * cut)", ['0 <= cut < %d' % ((PROXY_HANDSHAKE - 28 + 16) // 17)],
+define(globals(), 'C13', 'proxy_handshake_fault_discards_quick', ['cut'], "return do_proxy_handshake(28 + 21 * cut)", ['0 <= cut < %d' % ((PROXY_HANDSHAKE - 28 + 20) // 21)],
        timeout=3000, path_timeout=600, drives=DRIVES + ['cpppo.server.enip.get_attribute.proxy.open_gateway', 'cpppo.server.enip.get_attribute.proxy.list_identity_details',
                                                         'cpppo.server.enip.get_attribute.proxy.close_gateway', 'cpppo.server.enip.get_attribute.proxy.__enter__'],
-       stubs=STUBS, bounds='proxy without identity_default: the server-to-client stream of a new connection is cut at every 17th offset inside the List Identity reply '
+       stubs=STUBS, bounds='proxy without identity_default: the server-to-client stream of a new connection is cut at every 21st offset inside the List Identity reply '
                            '(right after the Register reply) that open_gateway requests: the use raises, the gateway is discarded, and the next use (fresh connection) '
                            'returns the correct data', outside='other offsets (thorough tier)')
 define(globals(), 'C13', 'proxy_handshake_fault_discards', ['cut'], "return do_proxy_handshake(28 + cut)", ['0 <= cut < %d' % (PROXY_HANDSHAKE - 28)],
